@@ -254,6 +254,7 @@ func directionTable(c *eng.Ctx, rule string, fi *eng.FuncInfo, flagName string, 
 		return
 	}
 	flow := eng.NewFlow(info, fi.Decl.Body)
+	locals := boolLocalDefs(info, fi.Decl.Body) // e.g. ascending := !descending
 	for _, fv := range []bool{true, false} {
 		desc := fv == flagMeansDescending
 		wantSuffix, badSuffix := "Ascending", "Descending"
@@ -262,12 +263,18 @@ func directionTable(c *eng.Ctx, rule string, fi *eng.FuncInfo, flagName string, 
 		}
 		outs, trunc := flow.Paths(eng.PathSpec{
 			Cond: func(br eng.Branch) eng.Tri {
-				return eng.BranchTri(info, br, func(e ast.Expr) eng.Tri {
-					if eng.ObjOf(info, e) == flag {
+				var atom func(e ast.Expr) eng.Tri
+				atom = func(e ast.Expr) eng.Tri {
+					o := eng.ObjOf(info, e)
+					if o == flag {
 						return eng.TriOf(fv)
 					}
+					if def, ok := locals[o]; ok && o != nil {
+						return eng.EvalBool(info, def, atom)
+					}
 					return eng.Unknown
-				})
+				}
+				return eng.BranchTri(info, br, atom)
 			},
 			Effect: func(n ast.Node) string {
 				var l []string
